@@ -95,14 +95,11 @@ func keyGroupRanges(keyGroupCount, rangeCount int) []KeyGroupRange {
 // KeyGroupRanges.
 func AssignRanges(to []KeyGroupRange, from []KeyGroupRange) [][]int {
 	assignments := make([][]int, len(to))
-	fromIdx := 0
 	for toIdx, toRange := range to {
-		// Advance fromIdx to the first possible overlap
-		for fromIdx < len(from) && from[fromIdx].End <= toRange.Start {
-			fromIdx++
-		}
-		j := fromIdx
-		for j < len(from) && from[j].Start < toRange.End {
+		// The `from` ranges come in the order the checkpoints were acknowledged,
+		// which is not sorted by key group, so every one of them is considered.
+		j := 0
+		for j < len(from) {
 			if toRange.Overlaps(from[j]) {
 				assignments[toIdx] = append(assignments[toIdx], j)
 			}
